@@ -227,6 +227,9 @@ def u_tset(c):
     c.prove("variant/transforms-base-copy-once", len(tcalls) == 1 and tcalls[0][0][0] is made[0]
             and tcalls[0][1].get("proceed") is proceed and tcalls[0][1].get("to_instrument") == frozenset(a) and tcalls[0][1].get("set_conformer") is False)
     if len(tcalls) == 1 and st == "ok":
+        # RefInv (C14): the target will run this variant's code, so the variant function object itself must be marked as
+        # one of ptera's private copies, otherwise '/module/function' finds two functions sharing the installed code
+        c.prove("variant/function-object-marked-discard", v1[0].attrs.get("__ptera_discard__") is True, only=["C14"])
         c.prove("variant/tuple", v1[1] is v1[0].attrs["__code__"] and v1[2] is v1[0].attrs["__ptera_info__"] and v1[3] is v1[0].attrs["__ptera_token__"])
     b = tuple(reversed(a)) + (a[:1] if a else ())  # same SET, different order / repetition
     st, v2 = run(it, it.getattr(ts, "transform_for"), [list(b)])
